@@ -63,12 +63,15 @@ def _fl(bez):
     return [tuple(float(v) for v in p) for p in bez]
 
 
-def consume(target, queue):
+MAX_DEPTH = 48      # 2^-48 of the parameter range: far below what any explored flatness needs
+
+
+def consume(target, queue, depth=0):
     """Consume pieces from the front of `queue` that together are exactly `target`."""
     if queue and queue[0] == target:
         queue.pop(0)
         return True
-    if not queue:
+    if not queue or depth >= MAX_DEPTH:
         return False
     # the next piece must start where target starts, and be a strict refinement
     if queue[0][0] != target[0]:
@@ -76,7 +79,7 @@ def consume(target, queue):
     left, right = de_casteljau_half(target)
     if left == target or right == target:       # degenerate (all four points equal)
         return False
-    return consume(left, queue) and consume(right, queue)
+    return consume(left, queue, depth + 1) and consume(right, queue, depth + 1)
 
 
 def run_subdivide(nodes, flat):
